@@ -20,7 +20,9 @@ RULE = ("singles: every L op R for op in {#=,#\\=,#<,#=<,#>,#>=} and L,R over 17
         "(variables, constants, + - * 2*X -X abs min max // mod rem ^2), sum/3, all_distinct/all_different, "
         "reified connectives; systems: all ordered pairs of a 70-template core (thorough: plus all ordered triples of a "
         "24-template core over X,Y,Z); each system labeled with [ff], [], [down], [bisect]; every L op R also on all "
-        "ground instances against is/2. Non-trivial: 0 < |solutions| < |assignments|.")
+        "ground instances against is/2; a division family X in -12..12 / -7..7 with X op Y #= Z (and mirrored), op in "
+        "{//, mod, rem, div}, Y in {-4,-3,-2,2,3,4}, Z in -3..3 as constants, as variables bound after posting, and as "
+        "small-domain variables. Non-trivial: 0 < |solutions| < |assignments|.")
 LEVEL_TEXT = ("bounded exhaustive input-space exploration with an exact oracle: every assignment of the finite domains "
               "is decided in Python, so a propagator that prunes a solution or a labeling that repeats one is seen")
 ASSUMPTIONS = ["Python integer semantics: // truncates, mod floors, rem truncates, an assignment with a zero divisor is a non-solution",
@@ -131,6 +133,8 @@ def ee(e, env):
         return a % b
     if k == "rem":
         return a - b * tdiv(a, b)
+    if k == "div":
+        return a // b
     raise ValueError(k)
 
 
@@ -245,6 +249,80 @@ def core24():
 
 # ---------------------------------------------------------------------------
 
+# --- division family: larger domains, operands of both signs (the ptzdiv/pmod/prem propagators branch on signs)
+DIV_OPS = ["//", "mod", "rem", "div"]
+DIV_Y = [-4, -3, -2, 2, 3, 4]
+DIV_Z = [-3, -2, -1, 0, 1, 2, 3]
+DIV_DOMS = [12, 7]
+DIV_YD = [(-4, -2), (2, 4), (-4, 4)]
+DIV_ZD = [(-3, 3), (-3, -1), (1, 3), (0, 0)]
+
+
+def div_cases():
+    for op in DIV_OPS:
+        for d in DIV_DOMS:
+            for mirror in (False, True):
+                for y in DIV_Y:
+                    for z in DIV_Z:
+                        for form in ("const", "bound-after-post"):
+                            yield {"kind": "div", "op": op, "dom": d, "mirror": mirror, "form": form, "y": y, "z": z}
+                for yd in DIV_YD:
+                    for zd in DIV_ZD:
+                        yield {"kind": "div", "op": op, "dom": d, "mirror": mirror, "form": "domains",
+                               "yd": list(yd), "zd": list(zd)}
+
+
+def div_goal(case):
+    op, d = case["op"], case["dom"]
+
+    def con(y, z):
+        l = "(X %s %s)" % (op, y)
+        return "%s #= %s" % (z, l) if case["mirror"] else "%s #= %s" % (l, z)
+    if case["form"] == "const":
+        post = "X in -%d..%d, %s" % (d, d, con(etext(case["y"]), etext(case["z"])))
+        vs = "X"
+    elif case["form"] == "bound-after-post":
+        post = "X in -%d..%d, Y in -4..4, Z in -3..3, %s, Y = %s, Z = %s" % (d, d, con("Y", "Z"), etext(case["y"]), etext(case["z"]))
+        vs = "X"
+    else:
+        post = "X in -%d..%d, Y in %s..%s, Z in %s..%s, %s" % (d, d, etext(case["yd"][0]), etext(case["yd"][1]),
+                                                             etext(case["zd"][0]), etext(case["zd"][1]), con("Y", "Z"))
+        vs = "X,Y,Z"
+    return "g(c27_sys([%s], (%s), R))" % (vs, post)
+
+
+def div_solutions(case):
+    d = case["dom"]
+    e = (case["op"], "X", "Y")
+    out = []
+    if case["form"] == "domains":
+        ys = range(case["yd"][0], case["yd"][1] + 1)
+        zs = range(case["zd"][0], case["zd"][1] + 1)
+    else:
+        ys, zs = [case["y"]], [case["z"]]
+    n = 0
+    for x in range(-d, d + 1):
+        for y in ys:
+            for z in zs:
+                n += 1
+                try:
+                    if ee(e, {"X": x, "Y": y}) == z:
+                        out.append((x, y, z) if case["form"] == "domains" else (x,))
+                except Undef:
+                    pass
+    return sorted(out), n
+
+
+def div_skel(case):
+    def sg(v):
+        return "neg" if v < 0 else "pos" if v > 0 else "zero"
+    if case["form"] == "domains":
+        what = "Y=%d..%d Z=%d..%d" % (case["yd"][0], case["yd"][1], case["zd"][0], case["zd"][1])
+    else:
+        what = "Y=%s Z=%s" % (sg(case["y"]), sg(case["z"]))
+    return "div-family %s%s %s %s" % (case["op"], "/mirrored" if case["mirror"] else "", case["form"], what)
+
+
 def sys_vars(case):
     return ["X", "Y", "Z", "B"] if case["kind"] == "triple" else ["X", "Y", "B"]
 
@@ -267,6 +345,8 @@ def solutions(cs, vs):
 
 def goal_of(case):
     k = case["kind"]
+    if k == "div":
+        return div_goal(case)
     if k == "ground":
         c = uc(case["cs"][0])
         a = "VL is %s, VR is %s, VL %s VR" % (etext(c[2]), etext(c[3]),
@@ -312,8 +392,12 @@ STRATS = ["ff", "leftmost", "down", "bisect"]
 
 
 def judge(case, res):
-    cs = [uc(c) for c in case["cs"]]
-    sk = " & ".join(skel(c) for c in cs)
+    if case["kind"] == "div":
+        cs = []
+        sk = div_skel(case)
+    else:
+        cs = [uc(c) for c in case["cs"]]
+        sk = " & ".join(skel(c) for c in cs)
     if res.abn:
         return "abnormal", [("%s abnormal %s" % (sk, res.abn), "", res.abn)], False
     if res.status != "done" or len(res.sols) != 1:
@@ -351,9 +435,12 @@ def judge(case, res):
                 viols.append(("ground %s %s-side exp=%s obs=%s" % (sk, side, b[0][3], px.terms.show(b[0][4])),
                               str([(r[1], r[2], r[3]) for r in b]), str([(r[1], r[2], px.terms.show(r[4])) for r in b])))
         return "ground:%s" % ("with-undefined" if n_u else "mixed" if n_t and n_f else "constant"), viols, bool(n_t and (n_f or n_u))
-    vs = sys_vars(case)
-    sols = solutions(cs, vs)
-    total = len(assignments(vs))
+    if case["kind"] == "div":
+        sols, total = div_solutions(case)
+    else:
+        vs = sys_vars(case)
+        sols = solutions(cs, vs)
+        total = len(assignments(vs))
     R = res.sols[0]["R"]
     if isinstance(R, tuple) and R[0] == "exc":
         viols.append(("post %s exception:%s" % (sk, px.formal_sig(R[1])), str(sols), px.terms.show(R)))
@@ -399,6 +486,10 @@ def gen(shard, tier):
         for k, (a, b) in enumerate(itertools.product(core, core)):
             if k % n == idx:
                 yield {"kind": "pair", "cs": [list_c(a), list_c(b)]}
+    elif kind == "div":
+        for k, c in enumerate(div_cases()):
+            if k % n == idx:
+                yield c
     else:
         core = core24()
         for k, (a, b, c) in enumerate(itertools.product(core, core, core)):
@@ -415,12 +506,13 @@ def list_c(c):
 
 
 NSH = {"quick": (8, 40, 0), "thorough": (8, 40, 112)}
+NDIV = 16
 
 
 def shards(tier):
     a, b, c = NSH[tier]
     return ([("single", i, a) for i in range(a)] + [("pair", i, b) for i in range(b)] +
-            [("triple", i, c) for i in range(c)])
+            [("triple", i, c) for i in range(c)] + [("div", i, NDIV) for i in range(NDIV)])
 
 
 def setup(w, tier):
